@@ -15,6 +15,7 @@ import Penguin.Lemmas.MuxLeakOpen
 import Penguin.Lemmas.PairHarness
 import Penguin.Lemmas.MuxAccountCount
 import Penguin.Lemmas.MuxAccountReq
+import Penguin.Lemmas.MuxEndedTable
 
 namespace Penguin.C06
 open Penguin Penguin.Mux
@@ -203,30 +204,38 @@ example : (applyOp (runOps { opts := {} } pre6b) (.deliver (.msg (.frame (.ackno
 /-! #### No leak, as a number: every slot is accounted for (`Lemmas/MuxAccount.lean`, `MuxAccountCount.lean`)
 
 The endpoint is *in service* (`Mux.Serving`) while its `Multiplexor` is held and its task runs and
-has not begun to wind down.  (Once the wind-down has begun the accounting is moot: a parked hand-over
-is abandoned and streams a `Connect` still creates are handed to nobody, but the wind-down ends by
-clearing the whole table — `C10.invalid_frame_resolves_everything`, C08; an example below shows such
-a slot.)  The model keeps no "dropped" mark on a handle (`rxOpen = false` is also what reading
+has not begun to wind down.  (While the wind-down is in progress the accounting is moot: a parked
+hand-over is abandoned and streams a `Connect` still creates are handed to nobody, but the wind-down
+ends by clearing the whole table — `C10.invalid_frame_resolves_everything`, C08; an example below
+shows such a slot.  Once the task has FINISHED the table is empty and stays empty —
+`ended_connection_table_is_empty` below — so the theorems of this section are stated for endpoints
+that are in service or have ended: only the wind-down in between is left out.)  The model keeps no
+"dropped" mark on a handle (`rxOpen = false` is also what reading
 end-of-stream leaves), so the handles a history has dropped are computed from the history:
 `Mux.dropsOf`.  `Mux.liveHandles e D` counts the handles the application has obtained and not
 dropped; `parkedCount` is 1 when the receive loop is parked handing a stream to a full accept queue.
 `Requested` and `BindRequested` slots are themselves the only record of a request the peer has not
-answered: `pendingOpens` counts the `Requested` slots whose caller still waits, `cancelledAwaiting`
-those whose caller has given up (`cancelOpen`; the slot stays until the peer answers — an
-`Acknowledge`, `Reset` or `Finish` releases it, `abandoned_request_slot_released_forever`),
-`pendingBinds` the `BindRequested` slots. -/
+answered — each of them is put into the table together with its `Connect` / `Bind` (a call that
+cannot queue the frame takes its slot out again: `open_on_ended_connection_leaves_no_slot`):
+`pendingOpens` counts the `Requested` slots whose caller still waits, `cancelledAwaiting` those
+whose caller has given up (`cancelOpen`; the slot stays until the peer answers — an `Acknowledge`,
+`Reset` or `Finish` releases it, `abandoned_request_slot_released_forever`), `pendingBinds` the
+`BindRequested` slots. -/
 
-/-- Every slot has an owner: in every state an endpoint reaches while in service — any sequence of
-    application calls and deliveries, any peer — each `Established` slot `x ↦ i` of the flow table is
-    justified by something that still exists: stream `i` waits in the accept queue, or is the parked
-    hand-over, or a dropped-handle notification for id `x` is queued for the task, or the
-    application holds a handle of stream `i` that it has not dropped. -/
+/-- Every slot has an owner: in every state an endpoint reaches while in service (or after its
+    connection has ended, when there is no slot at all) — any sequence of application calls and
+    deliveries, any peer — each `Established` slot `x ↦ i` of the flow table is justified by
+    something that still exists: stream `i` waits in the accept queue, or is the parked hand-over, or
+    a dropped-handle notification for id `x` is queued for the task, or the application holds a
+    handle of stream `i` that it has not dropped. -/
 theorem established_slot_has_an_owner (o : Opts) (ops : List Mux.Op) :
     let e := runOps { opts := o } ops
     let D := dropsOf { opts := o } ops
-    Serving e → ∀ fid i, lookup e.flows fid = some (.established i) →
+    Serving e ∨ e.dead = true → ∀ fid i, lookup e.flows fid = some (.established i) →
       i ∈ e.acceptq ∨ e.park = some (.accept i) ∨ fid ∈ e.droppedq ∨ ∃ h, e.handles[h]? = some i ∧ h ∉ D := by
   intro e D hs fid i hl
+  rcases hs with hs | hdead
+  case inr => rw [reachable_dead_table_empty o ops hdead] at hl; simp [lookup] at hl
   have hd : e.doneq = [] := runOps_doneq { opts := o } ops rfl
   rcases (reachable_accounted o ops hs).just fid i hl with h | h | h | h | h
   · exact Or.inl h
@@ -235,8 +244,9 @@ theorem established_slot_has_an_owner (o : Opts) (ops : List Mux.Op) :
   · exact Or.inr (Or.inr (Or.inl h))
   · exact Or.inr (Or.inr (Or.inr h))
 
-/-- No sequence of opens and closes leaks slots: in every state an endpoint reaches while in service,
-    whatever the application and the peer have done, the flow table has no more entries than
+/-- No sequence of opens and closes leaks slots: in every state an endpoint reaches while in service
+    (or after its connection has ended, when the table is empty), whatever the application and the
+    peer have done, the flow table has no more entries than
     handles the application still holds + streams waiting to be accepted + the parked hand-over +
     dropped-handle notifications the task has not processed yet + open requests the peer has not
     answered (pending, or abandoned by their caller) + bind requests the peer has not answered.
@@ -244,21 +254,27 @@ theorem established_slot_has_an_owner (o : Opts) (ops : List Mux.Op) :
 theorem slots_are_accounted_for (o : Opts) (ops : List Mux.Op) :
     let e := runOps { opts := o } ops
     let D := dropsOf { opts := o } ops
-    Serving e →
+    Serving e ∨ e.dead = true →
       e.flows.length ≤ liveHandles e D + e.acceptq.length + parkedCount e + e.droppedq.length +
-        pendingOpens e + cancelledAwaiting e + pendingBinds e :=
-  fun hs => reachable_slot_bound o ops hs
+        pendingOpens e + cancelledAwaiting e + pendingBinds e := by
+  intro e D hs
+  rcases hs with hs | hdead
+  · exact reachable_slot_bound o ops hs
+  · have hf : e.flows = [] := reachable_dead_table_empty o ops hdead
+    rw [hf]; exact Nat.zero_le _
 
 /-- Arbitrarily long sequences of opens and closes leave nothing behind: in a reachable state in
-    service in which every handle the application ever obtained has been dropped, no stream waits to
-    be accepted, nothing is parked, no notification is queued and no open or bind request (pending or
-    abandoned) awaits the peer's answer, the flow table is EMPTY. -/
+    service (or after the connection has ended) in which every handle the application ever obtained
+    has been dropped, no stream waits to be accepted, nothing is parked, no notification is queued and
+    no open or bind request (pending or abandoned) awaits the peer's answer, the flow table is EMPTY. -/
 theorem no_leak_when_idle (o : Opts) (ops : List Mux.Op) :
     let e := runOps { opts := o } ops
     let D := dropsOf { opts := o } ops
-    Serving e → (∀ h, h < e.handles.length → h ∈ D) → e.acceptq = [] → e.park = none → e.droppedq = [] →
-      awaitingOpen e = 0 → pendingBinds e = 0 → e.flows = [] := by
+    Serving e ∨ e.dead = true → (∀ h, h < e.handles.length → h ∈ D) → e.acceptq = [] → e.park = none →
+      e.droppedq = [] → awaitingOpen e = 0 → pendingBinds e = 0 → e.flows = [] := by
   intro e D hs hh ha hp hq hr hb
+  rcases hs with hs | hdead
+  case inr => exact reachable_dead_table_empty o ops hdead
   have hbound : e.flows.length ≤ liveHandles e D + e.acceptq.length + parkedCount e + e.droppedq.length +
       pendingOpens e + cancelledAwaiting e + pendingBinds e := reachable_slot_bound o ops hs
   have hl : liveHandles e D = 0 := by
@@ -321,14 +337,14 @@ theorem slots_are_accounted_for_by_calls (o : Opts) (ops : List Mux.Op) (hf : fr
     let e := runOps { opts := o } ops
     let D := dropsOf { opts := o } ops
     pendingOpens e ≤ e.opens.length ∧
-    (Serving e →
+    (Serving e ∨ e.dead = true →
       e.flows.length ≤ liveHandles e D + e.acceptq.length + parkedCount e + e.droppedq.length +
         e.opens.length + cancelledAwaiting e + pendingBinds e) := by
   intro e D
   have hp : pendingOpens e ≤ e.opens.length := pendingOpens_le e (runOps_uq _ ops (init_uq o) rfl hf)
   refine ⟨hp, fun hs => ?_⟩
   have hb : e.flows.length ≤ liveHandles e D + e.acceptq.length + parkedCount e + e.droppedq.length +
-      pendingOpens e + cancelledAwaiting e + pendingBinds e := reachable_slot_bound o ops hs
+      pendingOpens e + cancelledAwaiting e + pendingBinds e := slots_are_accounted_for o ops hs
   omega
 
 /-! Non-vacuity: the history `h8` above names its requests 1, 2 (and 3 for the bind): the naming
@@ -338,27 +354,96 @@ example : (runOps { opts := o8 } h8).opens.length = 1 := by decide
 /-! … and it is what fails in the history that re-uses the number of a cancelled request. -/
 example : freshRun { opts := {} } [.open 1 [97] 80, .cancelOpen 1, .open 1 [97] 80] = false := by decide
 
-/-! Why `Serving` is assumed: after the `Multiplexor` was dropped the task winds down and waits for the
-    peer to end the connection; a `Connect` that still arrives creates a stream that is handed to
-    nobody — its slot has no owner until the wind-down finishes and clears the table. -/
+/-! Why the wind-down between "in service" and "ended" is left out: after the `Multiplexor` was dropped
+    the task winds down and waits for the peer to end the connection; a `Connect` that still arrives
+    creates a stream that is handed to nobody — its slot has no owner until the wind-down finishes and
+    clears the table. -/
 example : let e := runOps { opts := {} } [.dropMux, .deliver (.msg (.frame (.connect 9 4 80 [])))]
-    e.flows = [(9, .established 0)] ∧ e.closing = some .ok ∧ e.outClosed = true ∧ e.acceptq = [] ∧ e.park = none ∧
-    e.droppedq = [] ∧ e.handles = [] := by decide
+    e.flows = [(9, .established 0)] ∧ e.closing = some .ok ∧ e.outClosed = true ∧ e.dead = false ∧ e.acceptq = [] ∧
+    e.park = none ∧ e.droppedq = [] ∧ e.handles = [] := by decide
 example : (runOps { opts := {} } [.dropMux, .deliver (.msg (.frame (.connect 9 4 80 []))), .deliver .eof]).flows = [] := by
   decide
 
-/-- Outside service one slot kind IS orphaned (model and code, lib.rs `new_stream_channel`): a call on
-    a connection that has already ended inserts its `Requested` slot before it notices that the
-    outbound queue is closed; it returns `Closed`, and the slot stays — the task that would drain the
-    table has finished, no request owns the slot, and nothing the peer or the application does
-    removes it: the table of a finished connection grows by one entry per call (until the
-    `Multiplexor` and all of its streams are dropped and the table itself is freed).  Here: the peer
-    ends the connection, then three calls — three slots, no pending request, no handle.  (`Serving`
-    excludes this state; the bound above counts such slots under `cancelledAwaiting`.) -/
-theorem open_on_ended_connection_leaves_slot_full_fails :
-    let e := runOps { opts := {} } [.deliver .eof, .open 1 [97] 80, .open 2 [97] 80, .open 3 [97] 80]
-    e.dead = true ∧ e.flows.length = 3 ∧ e.opens = [] ∧ e.handles = [] ∧ cancelledAwaiting e = 3 ∧
-    (applyOp (runOps { opts := {} } [.deliver .eof]) (.open 1 [97] 80)).2.2 = [.openDone 1 .closed] := by
+/-! #### Calls on a connection that no longer takes frames leave no slot behind
+
+`new_stream_channel` and `request_bind` insert their slot first and queue the `Connect` / `Bind`
+afterwards.  When the outbound queue is closed (the connection has ended or is winding down) the
+frame cannot be queued: the call takes its slot out of the table again and returns `Closed`
+(lib.rs; `Mux.openRound`, `Mux.appBindReq`). -/
+
+/-- A call on a connection that no longer takes frames leaves NO slot behind — for EVERY endpoint
+    state whose outbound queue is closed:
+    * a round of `new_stream_channel` (the first one, `appOpen`, or a later one of a request that had
+      been told "rejected") leaves the flow table exactly as it was, the request is no longer
+      pending, and the call finishes at once — with `Closed` whenever it got as far as the send
+      (a retry is left and a flow id could be drawn), otherwise with FlowIdRejected;
+    * `request_bind` leaves the flow table exactly as it was and answers `Closed`. -/
+theorem open_on_ended_connection_leaves_no_slot (e : EP) (hoc : e.outClosed = true) :
+    (∀ r : OpenReq,
+      (openRound e r).1.flows = e.flows ∧ (∀ q ∈ (openRound e r).1.opens, q.req ≠ r.req) ∧
+      ((openRound e r).2 = [.openDone r.req .closed] ∨ (openRound e r).2 = [.openDone r.req .rejected]) ∧
+      (r.retriesLeft ≠ 0 → (drawId e.flows e.rng e.fallback 64).isSome = true →
+        (openRound e r).2 = [.openDone r.req .closed])) ∧
+    (∀ req host port,
+      (appOpen e req host port).1.flows = e.flows ∧ (∀ q ∈ (appOpen e req host port).1.opens, q.req ≠ req) ∧
+      ((appOpen e req host port).2 = [.openDone req .closed] ∨ (appOpen e req host port).2 = [.openDone req .rejected]) ∧
+      (e.opts.maxRetries ≠ 0 → (drawId e.flows e.rng e.fallback 64).isSome = true →
+        (appOpen e req host port).2 = [.openDone req .closed])) ∧
+    (∀ req bt host port,
+      (appBindReq e req bt host port).1.flows = e.flows ∧
+      (appBindReq e req bt host port).2 = [.bindDone req .closed]) := by
+  have key : ∀ r : OpenReq,
+      (openRound e r).1.flows = e.flows ∧ (∀ q ∈ (openRound e r).1.opens, q.req ≠ r.req) ∧
+      ((openRound e r).2 = [.openDone r.req .closed] ∨ (openRound e r).2 = [.openDone r.req .rejected]) ∧
+      (r.retriesLeft ≠ 0 → (drawId e.flows e.rng e.fallback 64).isSome = true →
+        (openRound e r).2 = [.openDone r.req .closed]) := by
+    intro r
+    have h := openRound_closed_resolves e r hoc
+    exact ⟨openRound_closed_flows e r hoc, h.2.2, h.1.symm, openRound_closed_answer e r hoc⟩
+  exact ⟨key, fun req host port => key { req := req, host := host, port := port, retriesLeft := e.opts.maxRetries },
+    fun req bt host port => appBindReq_closed_flows e req bt host port hoc⟩
+
+/-! Non-vacuity (this is the history of the former finding `open_on_ended_connection_leaves_slot`):
+    the peer ends the connection, then three `new_stream_channel` calls and a `request_bind` — the
+    queue is closed, ids can be drawn, every call is answered `Closed`, and the table is still empty. -/
+example : let e := runOps { opts := {} } [.deliver .eof]
+    e.outClosed = true ∧ e.dead = true ∧ e.opts.maxRetries ≠ 0 ∧ (drawId e.flows e.rng e.fallback 64).isSome = true := by
+  decide
+example :
+    let e := runOps { opts := {} } [.deliver .eof, .open 1 [97] 80, .open 2 [97] 80, .open 3 [97] 80, .bindReq 4 .stream [] 9]
+    e.dead = true ∧ e.flows = [] ∧ e.opens = [] ∧ e.handles = [] ∧ cancelledAwaiting e = 0 ∧
+    (applyOp (runOps { opts := {} } [.deliver .eof]) (.open 1 [97] 80)).2.2 = [.openDone 1 .closed] ∧
+    (applyOp (runOps { opts := {} } [.deliver .eof]) (.bindReq 4 .stream [] 9)).2.2 = [.bindDone 4 .closed] := by
+  decide
+/-! … and on a connection that is only winding down (the `Multiplexor` handle of the model is gone,
+    but the rule is about the queue): the table keeps exactly the slots it had. -/
+example : let e := runOps { opts := {} } [.deliver (.msg (.frame (.connect 9 4 80 []))), .dropMux]
+    e.outClosed = true ∧ e.dead = false ∧ e.flows = [(9, .established 0)] ∧
+    (appOpen e 1 [97] 80).1.flows = e.flows ∧ (appOpen e 1 [97] 80).2 = [.openDone 1 .closed] ∧
+    (appBindReq e 2 .stream [] 9).1.flows = e.flows := by decide
+
+/-- The flow table of an ended connection is empty and stays empty: in every state an endpoint
+    reaches — any sequence of application calls and deliveries, any peer — once the connection task
+    has finished there is no slot in the flow table, whatever was called on the `Multiplexor`
+    before and whatever is called on it afterwards (the wind-down clears the table, the task does
+    nothing more, and by the theorem above no later call leaves a slot). -/
+theorem ended_connection_table_is_empty (o : Opts) (ops : List Mux.Op) :
+    (runOps { opts := o } ops).dead = true → (runOps { opts := o } ops).flows = [] :=
+  reachable_dead_table_empty o ops
+
+/-- … said for the rest of the history: from the moment the task has finished, the table is empty
+    after every further stimulus. -/
+theorem ended_connection_table_stays_empty (o : Opts) (pre post : List Mux.Op)
+    (hd : (runOps { opts := o } pre).dead = true) : (runOps (runOps { opts := o } pre) post).flows = [] :=
+  (runOps_ended _ post (reachable_ended o pre)).empty ((Mono.runOps _ post).dead hd)
+
+/-! Non-vacuity: a connection with an open stream, a pending open request and a pending bind request
+    is ended by the peer; calls keep coming afterwards. -/
+example : let pre : List Mux.Op :=
+      [.deliver (.msg (.frame (.connect 5 4 80 []))), .accept, .open 1 [97] 80, .bindReq 2 .stream [] 9]
+    (runOps { opts := {} } pre).flows.length = 3 ∧ (runOps { opts := {} } pre).dead = false ∧
+    (runOps { opts := {} } (pre ++ [.deliver .eof])).dead = true ∧
+    (runOps { opts := {} } (pre ++ [.deliver .eof, .open 3 [97] 80, .bindReq 4 .stream [] 9, .dropStream 0])).flows = [] := by
   decide
 
 /-! #### The pair: two endpoints and the wires, every interleaving (`Model/Pair.lean`)
